@@ -54,6 +54,11 @@ IntCast(v) ==
 
 FloatishChars == {43, 45, 46, 69, 101} \cup (48..57)
        \cup {105, 110, 102, 97, 116, 121, 73, 78, 70, 65, 84, 89}   \* inf nan infinity, any case
+(* f64::from_str accepts, besides decimal and exponent forms, exactly inf / infinity / nan in    *)
+(* any case with an optional sign; a text without a digit that is none of these does not parse *)
+HasDigit(t) == \E i \in DOMAIN t : t[i] \in 48..57
+Unsigned(t) == IF t # <<>> /\ t[1] \in {43, 45} THEN Tail(t) ELSE t
+IsSpecialFloatText(t) == Low(Unsigned(t)) \in {<<105,110,102>>, <<105,110,102,105,110,105,116,121>>, <<110,97,110>>}
 Pow2_53 == <<9,0,0,7,1,9,9,2,5,4,7,4,0,9,9,2>>
 FltCast(v) ==
   IF IsNone(v) THEN CMiss
@@ -62,7 +67,8 @@ FltCast(v) ==
          [] v.t = "F" -> CNum(NumOf(v))
          [] v.t = "S" -> LET p == ParseFltText(v.s) IN
                          IF p.k # "none" THEN (IF Len(StripLead(p.d)) + Len(p.fr) <= 15 THEN CNum(p) ELSE CUnk)
-                         ELSE IF v.s # <<>> /\ \A i \in DOMAIN v.s : v.s[i] \in FloatishChars THEN CUnk
+                         ELSE IF v.s # <<>> /\ \A i \in DOMAIN v.s : v.s[i] \in FloatishChars
+                              THEN (IF HasDigit(v.s) \/ IsSpecialFloatText(v.s) THEN CUnk ELSE CBad)
                          ELSE CBad
          [] OTHER -> CBad
 
